@@ -26,6 +26,8 @@ pub struct Step<'a, K: Kit> {
     pub cb_before: [u64; 4],
     pub cb_after: [u64; 4],
     pub used: usize,
+    /// true: the whole history ran inside as few solve calls as possible
+    pub batch: bool,
 }
 
 pub struct BfsStats {
@@ -42,6 +44,7 @@ pub fn bfs_tree<K: Kit>(
     letters: &[u8],
     depth: usize,
     max_states: usize,
+    batch: bool,
     rep: &mut Report,
     on_step: &(dyn Fn(&Step<K>, &mut Report) + Sync),
     on_caught: &(dyn Fn(&[u8], u8, Caught, &mut Report) + Sync),
@@ -88,9 +91,39 @@ pub fn bfs_tree<K: Kit>(
                     match run {
                         Err(c) => on_caught(hist, l, c, &mut lrep),
                         Ok((rig, result, used, post, log_mark, cb_before, cb_after)) => {
-                            let st = Step { sc, hist, letter: l, pre, post: &post, result: &result, rig: &rig, log_mark, cb_before, cb_after, used };
+                            let st = Step { sc, hist, letter: l, pre, post: &post, result: &result, rig: &rig, log_mark, cb_before, cb_after, used, batch: false };
                             on_step(&st, &mut lrep);
                             drop(rig);
+                            // ---- batch mode: the same history fed through as few solve calls as
+                            // possible (state that lives inside one call survives between iterations)
+                            if batch && !hist.is_empty() {
+                                let mut h2 = hist.clone();
+                                h2.push(l);
+                                let run2 = guarded(|| {
+                                    let mut rig = Rig::<K>::new(sc, true);
+                                    rig.logging(true);
+                                    let calls = rig.feed(&h2);
+                                    let post = rig.snapshot();
+                                    let marks = seams::sample_marks();
+                                    let cb_after = seams::cb_counts();
+                                    (rig, calls, post, marks, cb_after)
+                                });
+                                match run2 {
+                                    Err(c) => on_caught(hist, l, c, &mut lrep),
+                                    Ok((rig2, mut calls, post2, marks, cb_after2)) => {
+                                        // the last sampler call opened the last iteration
+                                        if let (Some((seq, cb_before2)), Some((result2, _))) = (marks.last().cloned(), calls.pop()) {
+                                            let log_mark2 = rig2.world.log.borrow().iter().position(|(q, _, _)| *q > seq).unwrap_or(rig2.world.log.borrow().len());
+                                            lrep.count("batch_mode_transitions", 1);
+                                            if post2.key() != post.key() {
+                                                lrep.count("batch_vs_stepwise_trees_differ", 1);
+                                            }
+                                            let st2 = Step { sc, hist, letter: l, pre, post: &post2, result: &result2, rig: &rig2, log_mark: log_mark2, cb_before: cb_before2, cb_after: cb_after2, used: 1, batch: true };
+                                            on_step(&st2, &mut lrep);
+                                        }
+                                    }
+                                }
+                            }
                             let k = key_of(&post);
                             let mut h2 = hist.clone();
                             h2.push(l);
